@@ -43,15 +43,17 @@ type WalletNode struct {
 }
 
 type World struct {
-	S       *Sim
-	Dir     string
-	LN      *LNNet
-	Net     *Net
-	Mints   map[string]*MintNode
-	Wallets map[string]*WalletNode
-	SeamLog []SeamCall
-	Ext     *Inc // external actors (attacker, users at mint level)
-	Book    *Book
+	// RespellPct: percentage of plain outputs sent in an unusual spelling of their point (upper case, uncompressed)
+	RespellPct int
+	S          *Sim
+	Dir        string
+	LN         *LNNet
+	Net        *Net
+	Mints      map[string]*MintNode
+	Wallets    map[string]*WalletNode
+	SeamLog    []SeamCall
+	Ext        *Inc // external actors (attacker, users at mint level)
+	Book       *Book
 
 	Outputs   map[string]*HOutput // every output any harness actor ever created, by B_
 	OutOrder  []string
